@@ -53,13 +53,14 @@ type vfSide struct {
 	selEvents []string
 	inState   int32
 
-	controlling      bool
-	gen              int
-	ufrag, pwd       string
-	oldUfrag, oldPwd string // credentials of the generation ended by Restart
-	localCandsAll    []string
-	started          bool
-	restartedAt      int // step of the last Restart (for the C04 Checking edge)
+	controlling        bool
+	gen                int
+	ufrag, pwd         string
+	oldUfrag, oldPwd   string // credentials of the generation ended by Restart
+	localCandsAll      []string
+	otherTransportAddr netip.AddrPort // address told to this side only as a remote TCP candidate
+	started            bool
+	restartedAt        int // step of the last Restart (for the C04 Checking edge)
 
 	// shadow state of the monitors
 	prevSel       string
